@@ -330,6 +330,34 @@ func cmdCheck(args []string) {
 				assume = append(assume, "assumed contract (extern, unchecked): "+k)
 			}
 		}
+		// contracts of repo functions used at call sites here: who proves them
+		provedBy := map[string][]string{}
+		for pid, pcfg := range props {
+			for _, f := range pcfg.Funcs {
+				provedBy[f] = append(provedBy[f], pid)
+			}
+		}
+		mine := map[string]bool{}
+		for _, f := range pc.Funcs {
+			mine[f] = true
+		}
+		for k := range usedCons {
+			c := v.specs.Contracts[k]
+			if c == nil || c.Assumed || mine[k] {
+				continue
+			}
+			switch {
+			case c.Flags["assumed"]:
+				assume = append(assume, "assumed contract (repo function, body not verified against it): "+k)
+			case len(provedBy[k]) > 0:
+				ps := append([]string(nil), provedBy[k]...)
+				sort.Strings(ps)
+				assume = append(assume, "contract of repo function "+k+" is used here and proved by the check of "+strings.Join(ps, ", "))
+			case c.Flags["inline"] || c.Flags["inline-in"] || len(c.Requires)+len(c.Ensures) == 0:
+			default:
+				assume = append(assume, "contract of repo function "+k+" is used here and its body is not verified by any registered check")
+			}
+		}
 		seenAL := map[string]bool{}
 		for _, fk := range funcsUnder {
 			k := strings.Fields(fk + " x")[0]
